@@ -9,7 +9,7 @@ Monitor: command lines — grammar-derived with hostile arguments, mutated, and 
 not-authenticated, authenticated and selected states (IMAP) and to ManageSieve; hostile messages are stored and then fetched
 with every attribute and searched with every key.  Every line must be answered by a tagged completion with its tag (`* BAD`
 when no tag can be read), a continuation request, or BYE; the connection may end only after a BYE; `[SERVERBUG]` must never
-appear; a SIGALRM watchdog (2 s per line) catches any synchronous spin in the event loop, and a second connection must still
+appear; a CPU-time watchdog (SIGPROF, 3 s of processor time per line: a starved process on a busy machine does not trip it, a spinning one does) catches any synchronous spin in the event loop, and a second connection must still
 be served afterwards.  Exceptions that escape a connection task are identified by class and innermost pymap frame.
 """
 from __future__ import annotations
@@ -217,7 +217,7 @@ class Runner:
         part = self.part
         data = tag + b' ' + body + b'\r\n'
         case = dict(state=state, backend=self.backend, line=data.decode('latin1')[:600], family=family, length=len(data))
-        signal.setitimer(signal.ITIMER_REAL, limit)
+        signal.setitimer(signal.ITIMER_PROF, limit)
         try:
             raw = await c.send(data)
             rounds = 0
@@ -240,11 +240,11 @@ class Runner:
                 elif data.count(b'"') % 2 == 1 or True:
                     raw = await c.send(b'\r\n')
         except Hang:
-            signal.setitimer(signal.ITIMER_REAL, 0)
+            signal.setitimer(signal.ITIMER_PROF, 0)
             part.violation('monitor', f'the server does not return from processing the line within {limit:g} s (event loop blocked): state {state}, {data[:200]!r}', case, signature='hang:' + family)
             raise
         finally:
-            signal.setitimer(signal.ITIMER_REAL, 0)
+            signal.setitimer(signal.ITIMER_PROF, 0)
         closed = c.task.done()
         part.case(key=repr((state, data[:300])), nontrivial=not raw.startswith(tag + b' OK'), sample=dict(state=state, line=data[:80].decode('latin1'), reply=raw[:80].decode('latin1')))
         part.trace()
@@ -497,7 +497,7 @@ async def sieve_lines(part, r, n):
         w, tok, op = c19.gen_cmd(r, c19.compiles)
         line = w if r.random() < 0.5 else mutate(r, w.rstrip(b'\r\n')).replace(b'\n', b' ') + b'\r\n'
         case = dict(state='sieve', line=line.decode('latin1')[:400])
-        signal.setitimer(signal.ITIMER_REAL, 3.0)
+        signal.setitimer(signal.ITIMER_PROF, 3.0)
         try:
             raw = await c.send(line)
             if not c.task.done() and raw == b'':
@@ -516,7 +516,7 @@ async def sieve_lines(part, r, n):
             part.violation('monitor', f'ManageSieve does not return from processing {line[:200]!r} within 3 s', case, signature='hang:sieve')
             raise
         finally:
-            signal.setitimer(signal.ITIMER_REAL, 0)
+            signal.setitimer(signal.ITIMER_PROF, 0)
         part.case(key='sieve:' + repr(line[:300]), nontrivial=not raw.endswith(b'OK\r\n'))
         try:
             rs = imapresp.parse(raw)
@@ -600,7 +600,7 @@ def l1_modutf7(part, r, n):
     for raw, m in zip(inputs, res):
         if hangs >= 3:
             break
-        signal.setitimer(signal.ITIMER_REAL, 0.5)
+        signal.setitimer(signal.ITIMER_PROF, 0.5)
         try:
             try:
                 modutf7_decode(raw)
@@ -616,7 +616,7 @@ def l1_modutf7(part, r, n):
                            signature='modutf7-exception')
             continue
         finally:
-            signal.setitimer(signal.ITIMER_REAL, 0)
+            signal.setitimer(signal.ITIMER_PROF, 0)
         part.case(key='mu:' + raw.hex(), nontrivial=b'&' in raw)
         if m != 'ERR' and impl == 'ERR':
             part.violation('correspondence', f'modutf7_decode({raw!r}) raises ValueError, ModUtf7.decodeName accepts it: {m}', dict(level='L1', encoded=list(raw)), signature='l1-mutf7-reject')
@@ -686,7 +686,7 @@ def worker(job):
     share, nshares = job[4:6] if len(job) > 4 else (0, 1)
     r = random.Random(seed)
     part = Part()
-    signal.signal(signal.SIGALRM, _alarm)
+    signal.signal(signal.SIGPROF, _alarm)
     for backend in ('dict', 'maildir'):
         try:
             asyncio.run(header_sweep(part, r, backend, share, nshares))
@@ -727,14 +727,14 @@ def worker(job):
         asyncio.run(outcome_sequences(part, r, nseq))
     with guarded(part, 'C06 modutf7', dict(seed=seed)):
         l1_modutf7(part, r, nlines * 3)
-    signal.setitimer(signal.ITIMER_REAL, 0)
+    signal.setitimer(signal.ITIMER_PROF, 0)
     return part.result()
 
 
 def run(ctx):
     ctx.rep.rule = RULE
     ctx.rep.assumptions = ['the email package, the re engine and the codecs are not modelled: termination and outcome class of their calls are observed, not proved',
-                           'a synchronous spin is detected by SIGALRM in the harness process; the same watchdog bounds every line to 3 s',
+                           'a synchronous spin is detected by a processor-time watchdog (SIGPROF) in the harness process: 3 s of CPU per line; wall-clock time is not used, so a loaded machine raises no alarm',
                            '"* BAD" is accepted as the answer to a line from which no tag can be read']
     nw = ctx.workers
     ctx.pmap(worker, [(ctx.seed * 1000 + 20 + k, ctx.budget(150, 2500), ctx.budget(4, 60), ctx.budget(8, 100), k, nw) for k in range(nw)])
